@@ -23,7 +23,8 @@ RULE = ("generated texts: single numbers, lists and tuples in any order, linspac
         "array (hash must agree). Non-trivial = text denoting >=2 distinct positive radii; distinct by the text itself")
 ASSUMPTIONS = ["range/arange parameters are generated so that (stop-start)/step is not within 1e-9 of an integer (numpy's float "
                "arange length is ambiguous there); such calls from other workloads are counted as ambiguous",
-               "values compared at rtol 1e-12 against exact rational arithmetic (numpy linspace/arange accumulate a few ulp)",
+               "values compared at rtol 1e-12 against exact rational arithmetic; for range/arange an absolute term 8*n*eps*max|value| is added "
+               "(numpy.arange accumulates n roundings of the step)",
                "a zero first radius and repeated radii are outside the statement (skipped, counted)"]
 EXHAUSTIVE = {"quick": False, "thorough": False}
 MIN_NONTRIVIAL = {"quick": 1000, "thorough": 20000}
@@ -111,7 +112,10 @@ def parser_yields_sorted_angstrom_radii(self, user_input):
         problems = []
         if got.shape != want.shape:
             problems.append(f"{len(got)} radii, intended {len(want)}")
-        elif not np.allclose(got, want, rtol=1e-12, atol=1e-13):
+        elif not np.allclose(got, want, rtol=1e-12, atol=1e-13 + (8 * len(want) * np.finfo(float).eps * float(np.abs(want).max())
+                                                                     if "range" in user_input else 0.0)):
+            # numpy.arange computes start + i*delta with delta = (start+step)-start rounded once: the error grows like
+            # n * ulp(max|value|); that is floating-point arithmetic, not a parsing defect
             problems.append({"radii": got[:12], "intended_sorted_times_10": want[:12]})
         h = int(hashlib.md5(np.ascontiguousarray(got)).hexdigest()[:8], 16)
         if self.grid_hash != h or self.get_name() != f"{h}":
